@@ -50,6 +50,9 @@ def main():
     if a.replay:
         from . import replay
         return replay.run(a.prop, a.replay)
+    if a.prop == "selftest":
+        from . import selftest
+        return selftest.run()
     fn = dispatch(a.prop)
     return fn(a.tier, seed)
 
